@@ -166,11 +166,21 @@ impl<'a> Gen<'a> {
     }
 
     fn const_assign(&mut self) -> St {
+        // const and mutable targets of several scalar types, with the value written as a literal,
+        // a variable and a negated literal (each accepted without a type diagnostic)
         let konst = self.r.bool();
+        let (cname, mname, values): (&str, &str, &[&str]) = match self.r.below(5) {
+            0 => ("k", "i", &["2", "-3", "i", "0x1F"]),
+            1 => ("ku", "mu", &["2", "0", "0xFF", "mu"]),
+            2 => ("ku8", "mu8", &["2", "1", "mu8"]),
+            3 => ("kf", "f", &["2.5", "f", "-1.5"]),
+            _ => ("kb", "mb", &["true", "false", "mb"]),
+        };
+        let v = *self.r.pick(values);
         St {
-            text: if konst { "k = 2;".into() } else { "i = 2;".into() },
+            text: format!("{} = {v};", if konst { cname } else { mname }),
             expect: if konst { vec!["MutateConstError"] } else { vec![] },
-            rule: format!("assign/{}", if konst { "const" } else { "mutable" }),
+            rule: format!("assign/{}/{}", if konst { "const" } else { "mutable" }, cname),
         }
     }
 
@@ -246,7 +256,7 @@ fn build(seed: u64) -> Prog {
     if stdlib {
         text.push_str("include \"stdgates.inc\";\n");
     }
-    text.push_str("qubit q0;\nqubit q1;\nqubit[3] qr;\nbit c;\nbit[2] cr;\nint i;\nconst int k = 1;\nfloat f;\nduration d;\nangle a;\n");
+    text.push_str("qubit q0;\nqubit q1;\nqubit[3] qr;\nbit c;\nbit[2] cr;\nint i;\nconst int k = 1;\nuint mu;\nconst uint ku = 1;\nuint[8] mu8;\nconst uint[8] ku8 = 1;\nconst float kf = 1.5;\nbool mb;\nconst bool kb = true;\nfloat f;\nduration d;\nangle a;\n");
     // user gates with 0-4 parameters and 1-4 qubits
     let ng = g.r.below(3);
     for n in 0..ng {
@@ -367,7 +377,8 @@ fn check_prog(p: &Prog, obs: &mut Obs) {
     }
     if multiset(&observed) != multiset(&expected) {
         // attribute: analyse each rule statement alone on top of the common preamble
-        let pre_end = p.stmts.first().map(|s| p.text.find(&s.text).unwrap_or(0)).unwrap_or(0);
+        // the preamble ends where the first rule site (in text order, not in generation order) starts
+        let pre_end = p.stmts.iter().filter_map(|s| p.text.find(&s.text)).min().unwrap_or(0);
         let mut preamble = p.text[..pre_end].to_string();
         // keep only complete lines of the preamble
         if let Some(i) = preamble.rfind('\n') {
